@@ -383,6 +383,10 @@ func Origins(e *Expr, transparent func(*Expr) []int) []*Expr {
 func (c *Ctx) OriginCheck(rule, key string, at ssa.Instruction, what string, v ssa.Value, transparent func(*Expr) []int, allowed ...Pat) bool {
 	leaves := Origins(Desc(v), transparent)
 	leaves = expandHelperLeaves(leaves, transparent, allowed, 0)
+	return c.judgeOrigins(rule, key, at, what, leaves, allowed)
+}
+
+func (c *Ctx) judgeOrigins(rule, key string, at ssa.Instruction, what string, leaves []*Expr, allowed []Pat) bool {
 	var bad []string
 	for _, l := range leaves {
 		m := false
@@ -410,6 +414,64 @@ func (c *Ctx) OriginCheck(rule, key string, at ssa.Instruction, what string, v s
 	}
 	c.ok(rule, key, instrPos(at), fmt.Sprintf("%s: origins {%s}", what, trunc(strings.Join(ls, " ; "), 300)))
 	return true
+}
+
+// OriginCheckThroughCallers is OriginCheck for a use that may have been extracted
+// into a helper: a leaf origin that is a parameter of an unexported function which
+// is only ever *called* (never taken as a value, never reached through an interface)
+// is replaced by the origins of the matching argument at every one of its call sites
+// (transitively, depth ≤ 3).  A parameter that already matches an allowed pattern,
+// and a parameter of any other function, stays a leaf.
+func (c *Ctx) OriginCheckThroughCallers(rule, key string, at ssa.Instruction, what string, v ssa.Value, transparent func(*Expr) []int, allowed ...Pat) bool {
+	leaves := Origins(Desc(v), transparent)
+	leaves = expandHelperLeaves(leaves, transparent, allowed, 0)
+	leaves = c.expandParamLeaves(leaves, transparent, allowed, 0)
+	return c.judgeOrigins(rule, key, at, what, leaves, allowed)
+}
+
+func (c *Ctx) expandParamLeaves(leaves []*Expr, transparent func(*Expr) []int, allowed []Pat, depth int) []*Expr {
+	if depth > 3 {
+		return leaves
+	}
+	var out []*Expr
+	for _, l := range leaves {
+		ok := false
+		for _, a := range allowed {
+			if a(l) {
+				ok = true
+				break
+			}
+		}
+		p, _ := l.V.(*ssa.Parameter)
+		if ok || l.K != EParam || p == nil || l.Idx < 0 {
+			out = append(out, l)
+			continue
+		}
+		h := p.Parent()
+		fo := funcObjOf(h)
+		if h == nil || h.Parent() != nil || fo == nil || fo.Exported() {
+			out = append(out, l)
+			continue
+		}
+		sites := c.CallSites(fo)
+		var sub []*Expr
+		direct := len(sites) > 0
+		for _, s := range sites {
+			cc := callCommon(s.Instr)
+			if (s.Kind != "call" && s.Kind != "defer" && s.Kind != "go") || cc == nil || cc.IsInvoke() || l.Idx >= len(cc.Args) {
+				direct = false
+				break
+			}
+			sub = append(sub, Origins(Desc(cc.Args[l.Idx]), transparent)...)
+		}
+		if !direct || len(sub) == 0 {
+			out = append(out, l)
+			continue
+		}
+		sub = expandHelperLeaves(sub, transparent, allowed, 0)
+		out = append(out, c.expandParamLeaves(sub, transparent, allowed, depth+1)...)
+	}
+	return out
 }
 
 func trunc(s string, n int) string {
